@@ -856,3 +856,31 @@ func init() {
 		c.Check(nRen == 1, fk+" :: rename found", w.pos(f.Pos()), "1", fmt.Sprintf("%d", nRen))
 	})
 }
+
+// ------------------------------------------------------------------ C15.R14
+// F71 (open): replay brings back the vote sets only if everything that decides which votes are *counted*
+// went through the write-ahead log. A validator's second, conflicting vote for a block is counted by a vote
+// set only once a peer has claimed +2/3 for that block (SetPeerMaj23). That claim arrives as a
+// VoteSetMaj23Message and is applied by the reactor directly — outside the consensus message queue, so it is
+// never logged. After a crash the replayed vote set rejects the very vote that completed the polka: the
+// validator's own precommit is in the log, its lock is not restored, and it prevotes another block in the
+// next round. Rule (K3): the vote sets of the consensus state are told about peer claims only from the
+// state's own handlers (which run behind the WAL write of the message they handle).
+func init() {
+	register("C15", "R14", "K3", "what decides which votes a vote set counts (peer +2/3 claims) is applied only by the consensus state's WAL-logged handlers", 1, func(c *Ctx) {
+		w := c.W
+		n := 0
+		ky := newKeyer()
+		for _, s := range w.allCallsTo("consensus/types#HeightVoteSet.SetPeerMaj23") {
+			if strings.HasSuffix(w.Fset.Position(s.Instr.Pos()).Filename, "_test.go") || strings.HasPrefix(relPkg(s.Fn), "test/") {
+				continue
+			}
+			n++
+			owner := outermost(s.Fn)
+			ok := isMethodOf(owner, "consensus", "State")
+			c.Check(ok, ky.key(owner, "apply a peer's +2/3 claim to the vote sets"), w.ipos(s.Instr), "inside a handler of consensus.State (behind the WAL write of the message)", "applied in "+funcKey(owner)+", outside the consensus message queue: the claim is not in the WAL, so a replay rebuilds vote sets that reject the conflicting vote it had admitted — a polka, and the lock taken on it, are lost over a restart")
+		}
+		c.Check(n >= 1, "consensus :: applications of peer claims found", "-", ">= 1", fmt.Sprintf("%d", n))
+	})
+	alias("C02", "R10", "C15", "R14", "a restarted validator must come back with the lock it had, or it prevotes another block without a more recent polka")
+}
